@@ -361,6 +361,15 @@ def search(ctx):
                 c = mkcase(cls, x, y, s, "vec", f, "finite")
             cases.append(c)
             kinds.append("finite")
+        # (a2) long data vectors with small / large error bars: sums of hundreds of terms whose partial products or partial sums leave
+        #      the double range if the formula is re-arranged (prod of sigmas, exp of a sum, ...)
+        for nbig, sg in (((600, 1.0 / 64), (900, 1.0 / 2), (500, 64.0)) if ctx.quick else ((600, 1.0 / 64), (900, 0.5), (500, 64.0), (2000, 0.5), (1500, 1.0 / 16))):
+            x = [fl(rng.uniform(0, 3)) for _ in range(nbig)]
+            y = [fl(rng.uniform(0.5, 20)) for _ in range(nbig)]
+            sv = [fl(sg * rng.choice([1.0, 2.0, 0.5])) for _ in range(nbig)]
+            f = [fl(rng.uniform(0.5, 40)) for _ in range(nbig)]
+            cases.append(mkcase(cls, x, y, sv, "vec", f, "finite-long"))
+            kinds.append("finite")
         # (b) special entries anywhere (also long vectors, several specials, complex dtype)
         bad_syms = ["nan", "pinf", "ninf", "cplx"]
         if cls == "PoissonLikelihood":
